@@ -12,10 +12,12 @@ Theorem C17_pkcs8_ec_roundtrip :
     In c ec_curves ->
     scalar_width c = Some w ->
     curve_oid c = Some co ->
+    (0 < d)%N ->
     (d < order c)%N ->
     (order c <= 256 ^ N.of_nat w)%N ->
     marshal_pkcs8 (KEc c d pub) = Some bs ->
-    len_ok (blen bs) -> parse_pkcs8 base_mult order bs = Some (KEc c d (base_mult c d)).
+    (* Go's encoding/asn1 refuses lengths of 2^31 and more *)
+    (blen bs < 2147483648)%N -> parse_pkcs8 base_mult order bs = Some (KEc c d (base_mult c d)).
 Proof. exact pkcs8_ec_roundtrip. Qed.
 Print Assumptions C17_pkcs8_ec_roundtrip.
 
@@ -23,7 +25,7 @@ Theorem C17_pkcs8_rsa_roundtrip :
   forall (base_mult : keyalg -> N -> bytes) (order : keyalg -> N) (n e d p q dp dq qinv : N)
       (bs : bytes),
     marshal_pkcs8 (KRsa n e d p q dp dq qinv) = Some bs ->
-    len_ok (blen bs) -> parse_pkcs8 base_mult order bs = Some (KRsa n e d p q dp dq qinv).
+    (blen bs < 2147483648)%N -> parse_pkcs8 base_mult order bs = Some (KRsa n e d p q dp dq qinv).
 Proof. exact pkcs8_rsa_roundtrip. Qed.
 Print Assumptions C17_pkcs8_rsa_roundtrip.
 
@@ -40,13 +42,15 @@ Theorem C17_pem_plain_roundtrip :
 Proof. exact read_pem_plain. Qed.
 Print Assumptions C17_pem_plain_roundtrip.
 
-(* input that is not a valid key is rejected: whatever the parser accepts is an EC key on a supported curve whose scalar is below
-   the group order (public point recomputed from it) or an RSA key record of non-negative numbers *)
+(* input that is not a valid key is rejected: whatever the parser accepts - the parser being a transcription of how Go's
+   struct-directed encoding/asn1 reads the PKCS#8 and ECPrivateKey structures, laxities included - is an EC key on one of the ten
+   supported curves whose scalar lies between 1 and the group order - 1 (public point recomputed from it), or an RSA key record of
+   non-negative numbers *)
 Theorem C17_accepts_only_supported_keys :
   forall (base_mult : keyalg -> N -> bytes) (order : keyalg -> N) (bs : bytes) (k : privkey),
     parse_pkcs8 base_mult order bs = Some k ->
     match k with
-    | KEc c d pub => exists w, scalar_width c = Some w /\ (d < order c)%N /\ pub = base_mult c d
+    | KEc c d pub => In c ec_curves /\ exists w, scalar_width c = Some w /\ (0 < d)%N /\ (d < order c)%N /\ pub = base_mult c d
     | KRsa _ _ _ _ _ _ _ _ => True
     end.
 Proof. exact parse_accepts_only_supported_keys. Qed.
